@@ -140,6 +140,24 @@ def handle (line : String) : String :=
       let known := if !specOk && (isUntilBot r1 || isUntilBot r2) then "K2" else "-"
       out id (mAcc == acc && mHit == hit) (b2s specOk) s!"rg-{kindOf r1}-{kindOf r2}-acc{mAcc}-{if mHit == "404" then "miss" else mHit}" known s!"{mAcc} {mHit}"
     | _, _, _, _ => bad id "parse"
+  | ["rg3", id, r1, r2, r3, p] =>
+    match parseRange r1, parseRange r2, parseRange r3, parseV p, impl with
+    | some r1, some r2, some r3, some v, [flags, hit] =>
+      let rs := [("h1", r1), ("h2", r2), ("h3", r3)]
+      -- model: each endpoint is accepted iff it overlaps none of those accepted before it
+      let step (ov : Range SemVer → Range SemVer → Bool) :=
+        rs.foldl (fun (acc : List (String × Range SemVer) × String) c =>
+          if acc.1.any (fun a => ov a.2 c.2) then (acc.1, acc.2 ++ "0") else (acc.1 ++ [c], acc.2 ++ "1")) ([], "")
+      let (macc, mflags) := step Range.overlaps
+      let mHit := match macc.find? (fun c => c.2.matches (some v)) with | some c => c.1 | none => "404"
+      -- spec: the same with "share a version" by brute force over the complete pool
+      let (sacc, sflags) := step sharePool
+      let holders := sacc.filter fun c => decide (Range.Mem v c.2)
+      let specOk := sflags == flags && (match holders with
+        | [] => hit == "404" | [c] => hit == c.1 | _ => false)
+      let known := if !specOk && (isUntilBot r1 || isUntilBot r2 || isUntilBot r3) then "K2" else "-"
+      out id (mflags == flags && mHit == hit) (b2s specOk) s!"rg3-{mflags}-{if mHit == "404" then "miss" else mHit}" known s!"{mflags} {mHit}"
+    | _, _, _, _, _ => bad id "parse"
   | _ => bad "?" "unknown-stream"
 
 end Dropshot.DriverC05
